@@ -10,22 +10,27 @@ prop = Prop(
     level="exploration",
     technique="Hypothesis PBT: safety-at-quiescence on the deterministic loop. At every quiescent point of a generated "
               "schedule/notify history no schedule() call may still be waiting while the independent accounting finds a "
-              "surviving target with enough free capacity; a notify that never returns is an exact deadlock verdict",
+              "target of its binding with enough free capacity; a scheduler call that never returns is an exact deadlock "
+              "verdict of the loop; bounded-exhaustive 2-job subspace",
     rule=(
-        "same history domain as C10 (see vf/sched_model.py), retry_delay unset so progress depends only on notify_all; "
-        "running jobs released one notification per quiescent point in a drawn order. Non-trivial = >= 1 request was found "
-        "waiting at a quiescent point and was granted later (measured); distinct by the whole case."
+        "histories: the domain of C10 (vf/sched_model.py), retry_delay unset so that progress depends only on notify_all; "
+        "fireable/running jobs are released one notification per quiescent point in a drawn order. Non-trivial = >= 1 request "
+        "was found waiting at a quiescent point and was granted later (measured); distinct by the whole case. "
+        "exhaustive-2jobs (see C10): non-trivial = same."
     ),
-    level_text="Random search; the liveness claim is decided as a safety property at the exact quiescent points of finite histories.",
-    level_note="'Eventually' is decided up to quiescence of a finite history; unbounded fairness is not addressed. A request is "
-               "required to be granted only if some target can host it given what the model says is free (capacity minus "
-               "reservations of fireable/running jobs minus retained directory usage).",
-    assumptions=["notification histories follow the callers' protocol (DESIGN R1c)", "values are multiples of 1/8 (exact float arithmetic)"],
+    level_text="Random search plus a small exhaustive subspace; the liveness claim is decided as a safety property at the exact "
+               "quiescent points of finite histories.",
+    level_note="'Eventually' is decided up to quiescence of a finite history; unbounded fairness is not addressed. A request must "
+               "be granted only if some target can host it (jointly, for multi-location targets) given what the model says is "
+               "free: capacity minus reservations of fireable/running jobs minus retained directory usage. Known findings "
+               "(stacked deployments only): see C11; each starves later requests.",
+    assumptions=["notification histories follow the callers' protocol (DESIGN R1c)", "values are multiples of 1/8 (exact float arithmetic)",
+                 "jobs use at most the storage they requested"],
 )
 prop.engine = "detloop"
 
 
-@prop.given("histories", sm.history_case(), quick=3000, thorough=100000)
+@prop.given("histories", sm.history_case(), quick=4000, thorough=150000)
 async def check_histories(case, rec):
     h = await sm.run_history(case, "C12")
     classify(h, rec, "C12")
